@@ -277,6 +277,10 @@ func c07pool(c *Ctx, k *K4) {
 	k.resetPuppets()
 }
 
+type c07err struct{ ID, Seq int }
+
+func (e c07err) Error() string { return fmt.Sprintf("c07err %d/%d", e.ID, e.Seq) }
+
 func (w *c07world) setup() {
 	k := w.k
 	var pb *Puppet
@@ -316,7 +320,13 @@ func (w *c07world) reply(by gen.PID, j int, foreign bool) (string, int) {
 		to = w.a
 	}
 	var err error
-	w.k.Exec(by, func(p *Puppet) { err = p.SendResponse(to, ref, c07resp{j, sq}) })
+	if sq%2 == 0 {
+		// every other reply (matching, stale, third-party, foreign, flooding alike) is an ERROR response: it travels
+		// through RouteSendResponseError and comes out of the call as its error; for the model it is a reply like any other
+		w.k.Exec(by, func(p *Puppet) { err = p.SendResponseError(to, ref, c07err{j, sq}) })
+	} else {
+		w.k.Exec(by, func(p *Puppet) { err = p.SendResponse(to, ref, c07resp{j, sq}) })
+	}
 	if err == nil {
 		return "ok", sq
 	}
@@ -399,6 +409,9 @@ func (w *c07world) run(sc []c07call, r *Result) {
 			}
 			if g.err == gen.ErrTimeout {
 				return fmt.Sprintf("ret %d timeout", cl.id)
+			}
+			if ce, ok := g.err.(c07err); ok {
+				g = &res{v: c07resp{ce.ID, ce.Seq}}
 			}
 			if g.err != nil {
 				return "ret-error " + g.err.Error()
